@@ -342,16 +342,8 @@ func (g *Gen) lookupName(st *State, name string, env map[string]Val) Val {
 	if g.fn.Pkg != nil {
 		if m, ok := g.fn.Pkg.Members[name]; ok {
 			if gl, ok := m.(*ssa.Global); ok {
-				key := "glob_" + gl.Name()
-				if gv, ok := st.globs[key]; ok {
-					return gv
-				}
-				v := g.symFor(gl.Type().(*types.Pointer).Elem(), key, st)
-				if v.Kind == "err" && isErrorType(gl.Type().(*types.Pointer).Elem()) {
-					g.assume(st, fmt.Sprintf("(not (= %s 0))", v.T))
-				}
-				st.globs[key] = v
-				return v
+				key := globKey(gl)
+				return g.globalVal(st, key, gl.Type().(*types.Pointer).Elem())
 			}
 			if cn, ok := m.(*ssa.NamedConst); ok {
 				return g.val(st, cn.Value)
@@ -464,6 +456,14 @@ func (g *Gen) fieldOf(st *State, base, field string, env map[string]Val) Val {
 			panic(specErr{"spec: field access on " + cur.Kind + " in " + base + "." + field})
 		}
 		idx := fieldIndex(stt, fname)
+		if idx < 0 {
+			// promoted field of an embedded struct value
+			if emb := embeddedWith(stt, fname); emb >= 0 && emb < len(cur.Tup) && cur.Tup[emb].Kind == "struct" {
+				cur = cur.Tup[emb]
+				stt = stt.Field(emb).Type().Underlying().(*types.Struct)
+				idx = fieldIndex(stt, fname)
+			}
+		}
 		if idx < 0 {
 			panic(specErr{"spec: no field " + fname + " in " + base + "." + field})
 		}
